@@ -167,6 +167,8 @@ func errClass(err error) int {
 		return 2 // retired by /repo commit 75da92d (silent drop): the model never answers 2
 	case strings.Contains(err.Error(), netceptor.ProblemServiceUnknown):
 		return 3
+	case strings.Contains(err.Error(), "too long"): // service name longer than the 8-byte field: refused
+		return 4
 	}
 	return 9
 }
@@ -175,7 +177,7 @@ func run(c *Ctx) {
 	QuietLogs()
 	im := NewImpl("C10", c.Seed, c.Tier)
 	im.Rule = "per scenario (converged chains/trees/ring of 2-6 real nodes; injected tables: 2- and 3-node loops through a phantom, loop hiding a real node, route over a missing connection, forwarder without the name hash, missing and looping return paths) every probed (source, target) pair is sent to with budgets {0,1,d-1,d,d+1,maxHops,30,255} (thorough: 0..255) and target services svc (bound), none (unbound), from service src or unreach; Ping with the same budgets and Traceroute per pair; non-trivial = the packet leaves the source node or expires there; distinct by (scenario, source, target, services, budget)"
-	cf := &CaseFile{Dir: c.Out, Prop: "C10", Imports: []string{"Model.Forward"}, CaseType: "fwd_case", CheckFn: "fwd_check", PerShard: 16}
+	cf := &CaseFile{Dir: c.Out, Prop: "C10", Imports: []string{"Model.Forward"}, CaseType: "fwd_case", CheckFn: "fwd_check", PerShard: 8}
 	for _, s := range scenarios(c) {
 		runScenario(c, im, cf, s)
 	}
@@ -251,6 +253,17 @@ func runScenario(c *Ctx, im *Impl, cf *CaseFile, s *scenario) {
 			traceCase(c, im, cf, w, s, src, dst, d)
 		}
 	}
+	if s.n >= 2 && !w.isRunaway() {
+		first, last := w.nodes[0], w.nodes[len(w.nodes)-1]
+		// a service name that does not fit the wire field: refused at the origin, nothing is sent
+		sendCase(c, im, cf, w, s, first, last, "src", "svcsvcsvc", 5, w.dist(first, last))
+		// a packet that claims to come from the ping service is not answered (else two nodes would
+		// answer each other for ever)
+		sendCase(c, im, cf, w, s, first, last, "ping", "ping", int(s.maxHops), w.dist(first, last))
+		// a node nobody has heard of: no route at the origin, the error comes back from WriteTo/Ping
+		sendCase(c, im, cf, w, s, first, "nowhere", "src", "svc", 3, -1)
+		pingCase(c, im, cf, w, s, first, "nowhere", 3, -1)
+	}
 	if s.n >= 2 && !w.isRunaway() { // the alias
 		pingCase(c, im, cf, w, s, w.nodes[0], "localhost", 0, 0)
 		sendCase(c, im, cf, w, s, w.nodes[0], "LocalHost", "src", "svc", 1, 0)
@@ -277,6 +290,9 @@ func sendCase(c *Ctx, im *Impl, cf *CaseFile, w *world, s *scenario, src, dst, f
 	if fsvc == "src" { // the anchored path: PacketConn.SetHopsToLive + WriteTo
 		pc := w.socks[src]
 		pc.SetHopsToLive(byte(h))
+		if got := pc.GetHopsToLive(); got != byte(h) {
+			im.Violate(fmt.Sprintf("SetHopsToLive(%d) then GetHopsToLive() = %d", h, got), "hop-setter", nil)
+		}
 		_, err = pc.WriteTo(payload, n.NewAddr(dst, tsvc))
 	} else {
 		err = n.SendMessageWithHopsToLive(fsvc, dst, tsvc, payload, byte(h))
@@ -535,6 +551,23 @@ func traceCase(c *Ctx, im *Impl, cf *CaseFile, w *world, s *scenario, src, dst s
 	im.Count(label, len(hops) > 1)
 	im.Hist(fmt.Sprintf("traceroute:%s-results", bucket(len(hops))))
 	replay := map[string]interface{}{"scenario": s.name, "src": src, "dst": dst, "traceroute": hops}
+	if !s.loopy && d >= 1 && d <= int(s.maxHops) && (len(hops)+len(src)+len(dst))%2 == 0 { // the method the control service calls (every other pair)
+		var hops2 []string
+		var lastErr2 error
+		ctx, cancel := context.WithTimeout(context.Background(), 3*time.Second)
+		for res := range w.mesh.Nodes[src].Traceroute(ctx, dst) {
+			hops2 = append(hops2, res.From)
+			lastErr2 = res.Err
+		}
+		cancel()
+		w.settle()
+		w.resnapshot() // this second run is activity of its own, not a late echo of the recorded one
+		if strings.Join(hops2, ",") != strings.Join(hops, ",") || (lastErr2 == nil) != (lastErr == nil) {
+			im.Violate(fmt.Sprintf("%s: Netceptor.Traceroute returns %v (err %v), CreateTraceroute over the same node returned %v (err %v)", label, hops2, lastErr2, hops, lastErr),
+				"traceroute-method-differs", replay)
+		}
+		im.Hist("traceroute:netceptor-method")
+	}
 	if !s.loopy && d >= 0 && d <= int(s.maxHops) {
 		// the nodes of one least-cost path, in order, ending with the target
 		ok := len(hops) == d+1 && lastErr == nil
